@@ -265,9 +265,9 @@ func init() {
 			"commands dying outside the taxonomy code (reader, writer, Go runtime) are re-run, never counted as C14 violations (counter crash_outside_taxonomy_code:*), and make the case inconclusive after three deaths",
 		},
 		Subs: []core.Sub{
-			{Name: "api", N: core.Const(nExShards+192, nExShards+960), Run: runAPI, Shard: 2, TimeoutS: 3000},
-			{Name: "dump", N: core.Const(nExShards+96, nExShards+576), Run: runDump, Shard: 2, TimeoutS: 3000},
-			{Name: "e2e", N: core.Const(64, 400), Run: runE2E, Shard: 4, TimeoutS: 3000},
+			{Name: "api", N: core.Const(nExShards+192, nExShards+2880), Run: runAPI, Shard: 2, TimeoutS: 3000},
+			{Name: "dump", N: core.Const(nExShards+96, nExShards+1728), Run: runDump, Shard: 2, TimeoutS: 3000},
+			{Name: "e2e", N: core.Const(64, 1200), Run: runE2E, Shard: 4, TimeoutS: 3000},
 		},
 		Cmds:          []string{"obigrep", "obiannotate"},
 		MinNontrivial: 400,
